@@ -84,7 +84,27 @@ class Axi2RegMonitor:
         else:
             held2, comp2 = held, comp
         s2 = (A2, held2, comp2)
-        return s2, self.settled(s2, post), []
+        notes = []
+        # coverage of the statement's schedule classes (counted by the harness, vacuity guard)
+        if beat and not clear:
+            notes.append('cov:beat_while_active')
+            if held is not None:
+                notes.append('cov:back_to_back_beat_overwrites')
+        if beat and clear:
+            notes.append('cov:beat_with_reset_or_done_same_cycle')
+        if x['tvalid'] and not A:
+            notes.append('cov:valid_while_inactive')
+        if held is not None and x['ap_done']:
+            notes.append('cov:cleared_by_done')
+        if held is not None and x['ap_reset']:
+            notes.append('cov:cleared_by_reset')
+        if held is not None and x['ap_start'] and not A and not x['ap_reset'] and not x['ap_done']:
+            notes.append('cov:cleared_by_restart')
+        if held is not None and x['ap_start'] and A and not clear:
+            notes.append('cov:start_while_active_keeps')
+        if _open:
+            notes.append('cov:start_with_reset_or_done_open')
+        return s2, self.settled(s2, post), notes
 
 
 class Reg2AxiMonitor:
@@ -141,6 +161,25 @@ class Reg2AxiMonitor:
         bad.extend(self.settled(s2, post))
         if post['tvalid'] and post['tdata'] in cap2:
             s2 = (A2, (post['tdata'],), comp2)
+        # coverage of the statement's schedule classes (counted by the harness, vacuity guard)
+        if pre['tvalid'] and not accept and not x['ap_reset']:
+            notes.append('cov:valid_held_under_backpressure')
+        if pre['tvalid'] and not accept and x['load_outs'] and A:
+            notes.append('cov:load_while_beat_pending')
+        if pre['tvalid'] and x['ap_reset']:
+            notes.append('cov:reset_mid_transfer')
+        if pre['tvalid'] and not accept and x['ap_done']:
+            notes.append('cov:done_mid_transfer')
+        if accept and x['load_outs'] and A:
+            notes.append('cov:back_to_back_load_with_accept')
+        if not pre['sent'] and post['sent']:
+            notes.append('cov:sent_rises')
+        if x['load_outs'] and not A:
+            notes.append('cov:load_while_inactive')
+        if not pre['tvalid'] and post['tvalid']:
+            notes.append('cov:valid_raised')
+        if _open:
+            notes.append('cov:start_with_reset_or_done_open')
         # informational (not demanded by the statement)
         if accept and post['tvalid'] and not (x['load_outs'] and A):
             notes.append('accepted_beat_offered_again')
